@@ -11,6 +11,7 @@ definitions), so they do not depend on the shape of the generated term:
   number of them, anywhere: inside quotients, multiplied by scalars, split or merged) to the case
   `n = 0` and to the difference between `n = m + 1` and `n = m`, where every sum appears as the same
   atom on both sides plus its last term: what is left is an identity of field expressions.
+* `tie_by_steps2` does the same for two extents (`Σ_{i<n} Σ_{d<m}`; C05): mixed second differences.
 * `tie_solve [defs]` unfolds, moves to `Finset` sums over ℝ, splits the last term off and closes
   the field identity (`ring1`, else `field_simp; ring1`, else with normalisation inside atoms).
   (`ring1`, not `ring`: inside `first`, `ring` "succeeds" by falling back to `ring_nf` without closing.)
@@ -30,6 +31,38 @@ theorem tie_by_steps (F G : ℕ → ℝ) (n : ℕ) (h0 : F 0 = G 0)
       have h2 := ih (Nat.le_of_succ_le hk)
       linarith
   exact key n le_rfl
+
+/-- the same for expressions with sums over two extents (`Σ_{i<n} Σ_{d<m}`, also next to single sums over either
+    extent and to products of the extents): it is enough that both sides agree at `(0, 0)`, that their first
+    differences agree along both edges and that their MIXED second differences agree; in the mixed difference every
+    double sum leaves its `(k, e)` term, every single sum and every sum over the smaller rectangles cancels as an
+    atom (`abstract_sums`), so what is left is again an identity of field expressions. -/
+theorem tie_by_steps2 (F G : ℕ → ℕ → ℝ) (n m : ℕ) (h00 : F 0 0 = G 0 0)
+    (hn : ∀ k, k < n → F (k + 1) 0 - F k 0 = G (k + 1) 0 - G k 0)
+    (hm : ∀ e, e < m → F 0 (e + 1) - F 0 e = G 0 (e + 1) - G 0 e)
+    (hs : ∀ k e, k < n → e < m →
+      F (k + 1) (e + 1) - F k (e + 1) - F (k + 1) e + F k e
+        = G (k + 1) (e + 1) - G k (e + 1) - G (k + 1) e + G k e) : F n m = G n m := by
+  have col : ∀ k, k ≤ n → F k 0 = G k 0 := fun k hk =>
+    tie_by_steps (fun k => F k 0) (fun k => G k 0) k h00 (fun j hj => hn j (lt_of_lt_of_le hj hk))
+  have row : ∀ e, e ≤ m → F 0 e = G 0 e := fun e he =>
+    tie_by_steps (fun e => F 0 e) (fun e => G 0 e) e h00 (fun j hj => hm j (lt_of_lt_of_le hj he))
+  have key : ∀ e, e ≤ m → ∀ k, k ≤ n → F k e = G k e := by
+    intro e
+    induction e with
+    | zero => intro _ k hk; exact col k hk
+    | succ e ih =>
+      intro he k
+      induction k with
+      | zero => intro _; exact row (e + 1) he
+      | succ k ihk =>
+        intro hk
+        have h1 := hs k e (Nat.lt_of_succ_le hk) (Nat.lt_of_succ_le he)
+        have h2 := ih (Nat.le_of_succ_le he) (k + 1) hk
+        have h3 := ih (Nat.le_of_succ_le he) k (Nat.le_of_succ_le hk)
+        have h4 := ihk (Nat.le_of_succ_le hk)
+        linarith
+  exact key m le_rfl n le_rfl
 
 open Lean Elab Tactic Meta in
 /-- replace every closed subterm `Finset.sum _ _` of the goal by a fresh variable: after the last term has been
@@ -79,13 +112,15 @@ macro_rules
         Nat.cast_ofNat, Nat.cast_zero, Nat.cast_one, Nat.cast_add, Nat.cast_mul,
         Finset.sum_range_succ, Finset.sum_range_zero])
 
-/-- unfold + normalise + close; also succeeds when the normalisation alone closes the goal -/
+/-- unfold + normalise + close; also succeeds when the normalisation alone closes the goal; third attempt: square
+    roots of inverses are moved inside (`√(1 / x) = (√x)⁻¹`; `√(σ * σ) = σ` is a hypothesis named in the call) -/
 syntax "tie_solve" "[" Lean.Parser.Tactic.simpLemma,* "]" : tactic
 macro_rules
   | `(tactic| tie_solve [$ls,*]) =>
     `(tactic| first
       | (tie_norm [$ls,*]; done)
       | (tie_norm [$ls,*]; abstract_sums; tie_close)
+      | (tie_norm [$ls,*, one_div, Real.sqrt_inv, Real.sqrt_one]; abstract_sums; tie_close)
       | tie_close)
 
 end ChiModel
